@@ -167,9 +167,8 @@ Definition to_hashmap_and_scale (us : list uexp) : res (hmap * ex real) :=
   let '(h, s, e) := st in Ok (h, mkex s e).
 
 (* Unit::reduce_hashmap: (hashmap, scale adjustment, offset).  The general
-   branch iterates over the HashMap in arbitrary order and INSERTS (replacing,
-   not adding) each renamed key: the model processes the list in the order
-   given, so that the order dependence is visible. *)
+   branch iterates over the HashMap in arbitrary order; the model processes
+   the list in the order given. *)
 Definition q59 : Q := Qmake 5 9.
 
 Definition hm_single_one (h : hmap) (k : str) : bool :=
@@ -178,16 +177,24 @@ Definition hm_single_one (h : hmap) (k : str) : bool :=
   | _ => false
   end.
 
+(* the renamed key is merged into the result: exponents are added and a
+   cancelled exponent is dropped (fend commit 1210896; before it the entry was
+   replaced, see Units/OldReduce.v) *)
+Definition hm_merge (acc : hmap) (k : str) (e : Q) : hmap :=
+  let total := match hm_get acc k with Some x => Qplus x e | None => e end in
+  let acc1 := hm_remove acc k in
+  if Qeq_bool total 0 then acc1 else hm_insert acc1 k total.
+
 Fixpoint reduce_general (h : hmap) (acc : hmap) (adj : ex real) : res (hmap * ex real) :=
   match h with
   | [] => Ok (acc, adj)
   | (bu, e) :: r =>
-    if str_eqb bu s_celsius then reduce_general r (hm_insert acc s_kelvin e) adj
+    if str_eqb bu s_celsius then reduce_general r (hm_merge acc s_kelvin e) adj
     else if str_eqb bu s_fahrenheit then
       do p <- real_pow (Simple q59) (Simple e);
       (* scale_adjustment.mul(&(5/9).pow(exponent).value): the power's flag is dropped *)
-      reduce_general r (hm_insert acc s_kelvin e) (er_mul adj (mkex (xv p) true))
-    else reduce_general r (hm_insert acc bu e) adj
+      reduce_general r (hm_merge acc s_kelvin e) (er_mul adj (mkex (xv p) true))
+    else reduce_general r (hm_merge acc bu e) adj
   end.
 
 Definition reduce_hashmap (h : hmap) : res (hmap * ex real * ex real) :=
@@ -222,7 +229,9 @@ Definition v_is_zero (v : value) : bool := real_is_zero (v_val v).
 
 (* Value::add (self + rhs) *)
 Definition v_add (a b : value) : res value :=
-  if v_is_zero b then Ok a
+  if v_is_zero b then
+    (* adding a zero keeps the value; an approximate zero makes it approximate (fend commit 198ba44) *)
+    Ok (mkval (v_val a) (v_units a) (v_exact a && v_exact b) (v_simp a))
   else
     do sf <- compute_scale_factor (v_units b) (v_units a);
     do scaled <- er_div (er_mul (mkex (v_val b) (v_exact b)) (sf_scale1 sf)) (sf_scale2 sf);
